@@ -524,4 +524,19 @@ theorem C20_first_failing_argument_reported (diagsOf : CallArg → List Diag) (s
     (argsRun diagsOf sees (pre ++ a :: post)).1 = pre.flatMap diagsOf ++ diagsOf a :=
   argsRun_first_failure diagsOf sees pre a post hpre ha
 
+/-- with `-B` every buffered diagnostic ends its line when the buffer is flushed (regenerated `bufferedNewline`: the flush prints
+    `"%s\n"`): a chunk the flush adds to stderr is a stored message followed by a line end -/
+theorem C20_buffered_messages_end_their_line (r : BufRun) (c : List Char) (h : c ∈ (flushInto r).out) :
+    c ∈ r.out ∨ c.getLast? = some '\n' := by
+  have hn : LibErrors.bufferedNewline = true := by decide
+  simp only [flushInto, hn, if_true, List.mem_append, List.mem_map] at h
+  rcases h with h | ⟨m, _, rfl⟩
+  · exact Or.inl h
+  · exact Or.inr (by simp)
+
+/-- a full message buffer does not end the run (regenerated `bufferFullEndsRun = false`): after a diagnostic below EXIT severity
+    the buffered run goes on with the remaining diagnostics, whatever the fill state -/
+theorem C20_full_buffer_does_not_end_the_run : LibErrors.bufferFullEndsRun = false ∧ LibErrors.succeedFlushes = true := by
+  decide
+
 end StepModel.Express.C20
